@@ -31,13 +31,16 @@ theorem LoopOk.pushColl {X : Nat → Prop} {lo : Nat} {g g' : Graph} {W W' : Wor
 
 theorem baseFoldsLoop_spec {base : GraphM Trunk} {B : Scope} (hb : Spec True base B) (hB : B.Indep)
     (stacker reducer : WRef) (hne : stacker.uid ≠ reducer.uid) (aS aR : Actor) (N : Nat) (rr lo : Nat)
-    (foldSem : Nat → Sem) (testV : Nat → Val) (lfuid : Nat) :
+    (foldSem : Nat → Sem) (testV : Nat → Val) (lfuid : Nat) (gb : Graph) (a cc : Nat) (hwb : Wired gb) (hbb : Bounded gb)
+    (ha : a < gb.next) (hSu : gb.next ≤ stacker.uid ∧ stacker.uid < cc) (hRu : gb.next ≤ reducer.uid ∧ reducer.uid < cc) :
     ∀ (folds : List Fold) (i : Nat) (g : Graph) (W : World) (insS insR : Nat → PubRef) (R0 : Nat),
       Inv g W → Wired g → rr ≤ g.next → lo ≤ g.next → rr ≤ R0 →
       FoldsVal W rr foldSem testV lfuid i folds →
       Coll g W stacker.uid stacker.gid aS N i insS → Coll g W reducer.uid reducer.gid aR N i insR →
       (∀ k, k < i → PubOk W (insS k) R0 (B (testV k) (foldSem k).train (foldSem k).label).apply ∧
         PubOk W (insR k) R0 (B (foldSem k).apply (foldSem k).train (foldSem k).label).apply) →
+      (∀ f ∈ folds, FoldReach gb a lo f) → Frame gb g → cc ≤ g.next → AReg a lo gb.next cc g W →
+      (∀ k, k < i → Reach g a (insR k).node ∧ ¬ Reach g a (insS k).node ∧ cc ≤ (insR k).node ∧ cc ≤ (insS k).node) →
       ∃ g' W' insS' insR', Run (baseFoldsLoop base stacker reducer i folds) g () g' ∧
         LoopOk (fun u => u = stacker.uid ∨ u = reducer.uid) lo g g' W W' rr ∧
         Coll g' W' stacker.uid stacker.gid aS N (i + folds.length) insS' ∧
@@ -45,6 +48,9 @@ theorem baseFoldsLoop_spec {base : GraphM Trunk} {B : Scope} (hb : Spec True bas
         (∀ k, k < i + folds.length →
           PubOk W' (insS' k) (R0 + (g'.next - g.next)) (B (testV k) (foldSem k).train (foldSem k).label).apply ∧
           PubOk W' (insR' k) (R0 + (g'.next - g.next)) (B (foldSem k).apply (foldSem k).train (foldSem k).label).apply) ∧
+        AReg a lo gb.next cc g' W' ∧
+        (∀ k, k < i + folds.length →
+          Reach g' a (insR' k).node ∧ ¬ Reach g' a (insS' k).node ∧ cc ≤ (insR' k).node ∧ cc ≤ (insS' k).node) ∧
         ∃ ts, g'.trains = g.trains ++ ts ∧ (∀ x ∈ ts, W'.live x.train.node ∧ W'.live x.label.node) ∧
           ts.map (trainedUnder W') =
             (List.range folds.length).flatMap
@@ -52,17 +58,18 @@ theorem baseFoldsLoop_spec {base : GraphM Trunk} {B : Scope} (hb : Spec True bas
   intro folds
   induction folds with
   | nil =>
-    intro i g W insS insR R0 hi hw _ _ _ _ hcS hcR hv
-    refine ⟨g, W, insS, insR, rfl, LoopOk.refl hi hw rr, by simpa using hcS, by simpa using hcR, ?_, [], ?_, ?_, rfl⟩
+    intro i g W insS insR R0 hi hw _ _ _ _ hcS hcR hv _ _ _ hareg hreach
+    refine ⟨g, W, insS, insR, rfl, LoopOk.refl hi hw rr, by simpa using hcS, by simpa using hcR, ?_, hareg,
+      (fun k hk => hreach k (by simpa using hk)), [], ?_, ?_, rfl⟩
     · intro k hk
       obtain ⟨v1, v2⟩ := hv k (by simpa using hk)
       exact ⟨v1.mono (by omega), v2.mono (by omega)⟩
     · simp
     · intro x hx; cases hx
   | cons f rest ih =>
-    intro i g W insS insR R0 hi hw hrr hlo hR0 hfv hcS hcR hv
+    intro i g W insS insR R0 hi hw hrr hlo hR0 hfv hcS hcR hv hfolds hfb hcc hareg hreach
     obtain ⟨fa, ft, fl, fx, _, hfrest⟩ := hfv
-    obtain ⟨t, c, g1, g2, g3, g4, g5, g6, W6, r1, r2, r3, r4, r5, r6, hit⟩ := iterV2 hb hB hi hw rr hrr fa ft fl fx
+    obtain ⟨t, c, g1, g2, g3, g4, g5, g6, W6, r1, r2, r3, r4, r5, r6, hit, hext⟩ := iterV2 hb hB hi hw rr hrr fa ft fl fx
     have hl6 : LoopOk (fun u => u = stacker.uid ∨ u = reducer.uid) lo g g6 W W6 rr := hit.loop hlo hi
     have hn6 := hit.frame.next_le
     have hlt6 : ∀ n, W6.live n → n < g6.next := fun n hn => (hit.inv.liveLt n hn).1
@@ -115,10 +122,63 @@ theorem baseFoldsLoop_spec {base : GraphM Trunk} {B : Scope} (hb : Spec True bas
         exact ⟨(v1.loop hl6 hi).mono (by omega), (v2.loop hl6 hi).mono (by omega)⟩
     have hfv8 : FoldsVal W6 rr foldSem testV lfuid (i + 1) rest :=
       FoldsVal.mono (Nat.le_refl _) (fun q r v h => h.loop hl6 hi) rest (i + 1) hfrest
-    obtain ⟨g', W', insS', insR', hrun, hl', cS', cR', hv', ts', hts', hlive', hmap'⟩ :=
+    -- the apply side after this round
+    have hnb := hfb.next_le
+    have hfr := hfolds f List.mem_cons_self
+    have ireg : IterReg a g g6 W6 t c := hext.areg a (by omega) (hfr.ta.mono (hfb.input_mono hbb))
+      (fun h => hfr.tt (Reach.old hfb hwb hfr.lt.2.1 h)) (fun h => hfr.tl (Reach.old hfb hwb hfr.lt.2.2.1 h))
+      (fun h => hfr.tx (Reach.old hfb hwb hfr.lt.2.2.2 h))
+    have hfb6 : Frame gb g6 := hfb.trans hit.frame
+    have hareg6 : AReg a lo gb.next cc g6 W6 := by
+      refine hareg.step (X := fun _ => False) hfb hwb hw (fun x hx => hx.elim) (fun u k hu _ => hit.frame.input u k hu)
+        (hit.frame.input_mono hi.bounded) hit.agree ?_ ireg.reg
+      intro s k q hs' hq
+      rcases hext.closed s k q hs' hq with h | h | h | h | h
+      · exact Or.inl (by omega)
+      · rw [h]; exact Or.inr ⟨hfr.ge.1, hfr.lt.1⟩
+      · rw [h]; exact Or.inr ⟨hfr.ge.2.1, hfr.lt.2.1⟩
+      · rw [h]; exact Or.inr ⟨hfr.ge.2.2.1, hfr.lt.2.2.1⟩
+      · rw [h]; exact Or.inr ⟨hfr.ge.2.2.2, hfr.lt.2.2.2⟩
+    have hareg8 : AReg a lo gb.next cc g8 W6 := by
+      rw [hg8]
+      refine (hareg6.pushEdge hfb6 hwb hit.wired hit.inv.bounded (by omega) (by omega) _ hSu).pushEdge
+        (hfb6.pushEdge _ hSu.1) hwb hw7 hi7.bounded (by show a < g6.next; omega) (by show cc ≤ g6.next; omega) _ hRu
+    have hXr : ∀ x, (x = stacker.uid ∨ x = reducer.uid) → gb.next ≤ x ∧ x < cc := by
+      intro x hx; rcases hx with e | e <;> rw [e] <;> assumption
+    have hin68 : ∀ u k, u < g6.next → ¬ (u = stacker.uid ∨ u = reducer.uid) → g8.inputOf u k = g6.inputOf u k := by
+      intro u k _ hx
+      rw [hg8, inputOf_pushEdge, inputOf_pushEdge]
+      have c1 : ¬ (stacker.uid = u ∧ i = k) := fun e => hx (Or.inl e.1.symm)
+      have c2 : ¬ (reducer.uid = u ∧ i = k) := fun e => hx (Or.inr e.1.symm)
+      simp [c1, c2]
+    have mono68 : ∀ u k q, g6.inputOf u k = some q → g8.inputOf u k = some q := by
+      intro u k q hq; rw [hg8]; exact inputOf_pushEdge_mono (inputOf_pushEdge_mono hq)
+    have hreach8 : ∀ k, k < i + 1 →
+        Reach g8 a ((fun k => if k = i then t.apply.publisher else insR k) k).node ∧
+        ¬ Reach g8 a ((fun k => if k = i then c.publisher else insS k) k).node ∧
+        cc ≤ ((fun k => if k = i then t.apply.publisher else insR k) k).node ∧
+        cc ≤ ((fun k => if k = i then c.publisher else insS k) k).node := by
+      intro k hk
+      by_cases hki : k = i
+      · subst hki
+        simp only [if_true]
+        refine ⟨ireg.ta.mono mono68, ?_, by have := hit.tails_ge.1; show cc ≤ t.apply.tail; omega,
+          by have := hit.tails_ge.2.2.2; show cc ≤ c.tail; omega⟩
+        intro hre
+        exact ireg.tc (hareg6.stable hfb6 hwb hit.wired hXr hin68 (hlt6 _ hit.tc.1)
+          (by have := hit.tails_ge.2.2.2; show cc ≤ c.tail; omega) hre)
+      · simp only [hki, if_false]
+        obtain ⟨h1, h2, h3, h4⟩ := hreach k (by omega)
+        refine ⟨h1.mono hl8.inputMono, ?_, h3, h4⟩
+        intro hre
+        exact h2 (hareg.stable hfb hwb hw hXr hl8.input ((hi.liveLt _ (hv k (by omega)).1.live).1) h4 hre)
+    have hfb8 : Frame gb g8 := by
+      rw [hg8]; exact (hfb6.pushEdge _ hSu.1).pushEdge _ hRu.1
+    obtain ⟨g', W', insS', insR', hrun, hl', cS', cR', hv', hareg', hreach', ts', hts', hlive', hmap'⟩ :=
       ih (i + 1) g8 W6 _ _ (R0 + (g8.next - g.next)) hi8 hw8 (by rw [hn8]; omega) (by rw [hn8]; omega) (by omega) hfv8 cS8 cR8 hv8
+        (fun f' hf' => hfolds f' (List.mem_cons_of_mem _ hf')) hfb8 (by rw [hn8]; omega) hareg8 hreach8
     have hn' := hl'.next_le
-    refine ⟨g', W', insS', insR', ?_, hl8.trans hl', ?_, ?_, ?_, ?_⟩
+    refine ⟨g', W', insS', insR', ?_, hl8.trans hl', ?_, ?_, ?_, hareg', ?_, ?_⟩
     · unfold baseFoldsLoop
       exact Run.bind r1 (Run.bind r2 (Run.bind r3 (Run.bind r4 (Run.bind r5 (Run.bind r6 (Run.bind r7 (Run.bind r8 hrun)))))))
     · have : i + (f :: rest).length = i + 1 + rest.length := by simp; omega
@@ -129,6 +189,8 @@ theorem baseFoldsLoop_spec {base : GraphM Trunk} {B : Scope} (hb : Spec True bas
       have hk' : k < i + 1 + rest.length := by simp at hk; omega
       obtain ⟨v1, v2⟩ := hv' k hk'
       exact ⟨v1.mono (by omega), v2.mono (by omega)⟩
+    · intro k hk
+      exact hreach' k (by simp at hk; omega)
     · obtain ⟨ts6, hts6, hlive6, hmap6⟩ := hit.trains
       have htr8 : g8.trains = g6.trains := by rw [hg8]; rfl
       refine ⟨ts6 ++ ts', by rw [hts', htr8, hts6, List.append_assoc], ?_, ?_⟩
